@@ -173,6 +173,7 @@ def table(p1, p2):
     arcs1 = list(p1.aedges())
     arcs2 = list(p2.aedges())
     rows = []
+    pts = []
     asym = 0
     for i, a1 in enumerate(arcs1):
         for j, a2 in enumerate(arcs2):
@@ -189,9 +190,26 @@ def table(p1, p2):
                 continue
             s12 = float(np.sign(turn(Arc(x12, a1.end), Arc(x12, a2.end))))
             s21 = float(np.sign(turn(Arc(x21, a2.end), Arc(x21, a1.end))))
+            pts.append(x12)
             rows.append({"e1": i, "e2": j, "d1": float(a1.start.distance(x12)), "d2": float(a2.start.distance(x21)),
                          "s12": s12, "s21": s21, "p": [float(x12.lon), float(x12.lat)], "q": [float(x21.lon), float(x21.lat)]})
     out = {"rows": rows, "asym": asym}
+    # Arc.get_next_intersection itself: every edge of p1 against all edges of p2, without and with each known crossing of that edge
+    gni = []
+    try:
+        for i, a1 in enumerate(arcs1):
+            for k in [-1] + [c for c, row in enumerate(rows) if row["e1"] == i]:
+                inter, arc = a1.get_next_intersection(arcs2) if k < 0 else a1.get_next_intersection(arcs2, pts[k])
+                if inter is None:
+                    gni.append([i, k, -1, -1])
+                    continue
+                j = [t for t, a2 in enumerate(arcs2) if a2 is arc]
+                j = j[0] if len(j) == 1 else -3
+                rid = [c for c, row in enumerate(rows) if row["e1"] == i and row["e2"] == j]
+                gni.append([i, k, rid[0] if len(rid) == 1 else -3, j])
+        out["gni"] = gni
+    except Exception as e:  # noqa
+        out["gni_err"] = "%s: %s" % (type(e).__name__, e)
     for key, (a, b) in (("i12", (p1, p2)), ("i21", (p2, p1))):
         try:
             out[key] = bool(a._is_inside(b))
